@@ -567,6 +567,9 @@ func runChild(p Property, c Case, exe, tmpRoot, tier string) (*CaseResult, bool)
 		}
 	}
 	stderrText := readTail(errFile, 4<<20)
+	if os.Getenv("VERIF_SHOW_STDERR") != "" {
+		fmt.Fprintf(os.Stderr, "----- child %d stderr -----\n%s\n", c.Idx, stderrText)
+	}
 	if lc := ReadLastCall(dir); lc != "" {
 		stderrText += "\nLASTCALL " + lc + "\n"
 	}
